@@ -116,6 +116,19 @@ let handle (line : string) : string =
                  if !ended then incr late;
                  List.iter (fun x -> h := (!h * 257 + int_of_n x + 1) mod 2147483647; incr tot) c end) all chunks;
            if not !ended then "MODEL-DID-NOT-REACH-END" else Printf.sprintf "%x %x %x" !tot !h !late)
+  | ["LI"; src; bs; plain; _comp; chunks] ->
+      (* the reader is ReadCompressed: plain bytes through ReadFactory's header (open_fd) with the dictated read() lengths, or a
+         decompressor chain (open_stream); by C18_line_input_blocks the blocks do not depend on which *)
+      let data = bytes_of_hex plain in
+      let s = if _comp = "-" then open_fd data (if src = "R" then numlist chunks else []) else open_stream data [] in
+      (match line_input (big_nat (int_of_string ("0x" ^ bs))) s with
+       | LIOk blocks ->
+           let h = ref 7 and tot = ref 0 in
+           List.iter (List.iter (fun x -> h := (!h * 257 + int_of_n x + 1) mod 2147483647; incr tot)) blocks;
+           (if blocks = [] then "-" else String.concat "," (List.map (fun b -> Printf.sprintf "%x" (List.length b)) blocks))
+           ^ Printf.sprintf " %x %x" !tot !h
+       | LINoNewline _ -> "NO-NEWLINE"
+       | LIFuel -> "OUT-OF-FUEL")
   | ["TK"; mode; hex] ->
       let data = bytes_of_hex hex in
       let eqb c = fun (x : n) -> int_of_n x = c in
